@@ -8,4 +8,7 @@ def run(ctx):
 
 
 def replay(data):
+    if str(data.get("obligation", "")).startswith("regex:"):
+        from . import regexsec
+        return regexsec.replay("C14", data)
     return drv.replay(data)
